@@ -43,6 +43,11 @@ func (p *Parser) App(code uint32, typ ...string) (*App, error) {
 	var app *App
 	if len(typ) > 0 {
 		app = p.apptype[appIdTypeIdx{code, typ[0]}]
+		if app == nil {
+			// An application declared without a type serves every type,
+			// also after the same id was declared again with another type.
+			app = p.apptype[appIdTypeIdx{code, ""}]
+		}
 	}
 	if app != nil {
 		return app, nil
